@@ -168,7 +168,7 @@ def extract_store(notes: list[str]) -> dict:
 def extract_adapter(notes: list[str]) -> dict:
     res: dict[str, Any] = {"table": [], "guarded": False, "statusBeforeAppend": False, "forwardOutsideGuard": False,
                            "underLock": False, "appendRetried": True, "statusRetried": False, "backoffMs": [],
-                           "retryPopsFront": False, "retryRaisesWhenEmpty": False, "startStatus": MISSING, "startRetried": False}
+                           "retryPopsFront": False, "retryRaisesWhenEmpty": False, "retryCopiesPerCall": False, "startStatus": MISSING, "startRetried": False}
     tree = _parse(RUNTIME, notes)
     fn = _method(tree, "_ServerInternalRunAdapter", "write_to_event_stream")
     if fn is None:
@@ -252,6 +252,21 @@ def extract_adapter(notes: list[str]) -> dict:
             if isinstance(n, ast.If) and isinstance(n.test, ast.Compare) and isinstance(n.test.ops[0], ast.Is) and _is_none(n.test.comparators[0]):
                 if any(isinstance(a, ast.Raise) and a.exc is None for a in n.body):
                     res["retryRaisesWhenEmpty"] = True
+        # the list that is popped must be a fresh copy made inside the call (not the runtime's own list)
+        popped = None
+        for n in ast.walk(rw):
+            if isinstance(n, ast.Call) and isinstance(n.func, ast.Attribute) and n.func.attr == "pop" and isinstance(n.func.value, ast.Name):
+                popped = n.func.value.id
+        for n in ast.walk(rw):
+            if popped and isinstance(n, ast.Assign) and len(n.targets) == 1 and isinstance(n.targets[0], ast.Name) and n.targets[0].id == popped:
+                v = n.value
+                fresh = (isinstance(v, ast.Call) and ((isinstance(v.func, ast.Name) and v.func.id in ("list", "deque", "copy", "deepcopy"))
+                                                      or (isinstance(v.func, ast.Attribute) and v.func.attr in ("copy", "deepcopy"))))
+                fresh = fresh or (isinstance(v, ast.Subscript) and isinstance(v.slice, ast.Slice) and v.slice.lower is None and v.slice.upper is None)
+                fresh = fresh or (isinstance(v, ast.List) and len(v.elts) == 1 and isinstance(v.elts[0], ast.Starred))
+                res["retryCopiesPerCall"] = bool(fresh)
+        if popped is None:
+            notes.append("gen/handler_status: _retry_store_write pops from no local list")
     rh = _method(tree, "ServerRuntimeDecorator", "run_workflow_handler")
     if rh is not None:
         r = _calls(rh, "_retry_store_write")
@@ -459,6 +474,9 @@ def generate(notes: list[str]) -> list[str]:
           f"def defaultBackoffMs : List Nat := [{', '.join(map(str, ad['backoffMs']))}]",
           f"def retryPopsFront : Bool := {_b(ad['retryPopsFront'])}",
           f"def retryRaisesWhenEmpty : Bool := {_b(ad['retryRaisesWhenEmpty'])}",
+          "/-- the back-off list that `_retry_store_write` pops from is a copy made inside the call: the budget of one",
+          "    write does not depend on earlier writes of the same runtime -/",
+          f"def retryCopiesPerCall : Bool := {_b(ad['retryCopiesPerCall'])}",
           "/-- `run_workflow_handler` -/",
           f"def startStatus : String := {_s(ad['startStatus'])}",
           f"def startRetried : Bool := {_b(ad['startRetried'])}", ""]
